@@ -5,7 +5,12 @@
 //!   \x1eE <ErrorKind> | <msg>  the evaluation returned an error, or
 //!   \x1eP <message>            the engine panicked, or
 //!   \x1eT                      the program did not finish within C03_TIMEOUT_S seconds (the process exits 3).
+//!   \x1eC site=unique/shared … (only when built with `--cfg c03_hook`, i.e. once the proposed add-only hook
+//!                              `steel::gc::verif` of /verif/.build/C03/proposed-hook-uniqueness-counters.diff is in /repo):
+//!                              how often Gc::get_mut / Gc::make_mut answered "unique" / "shared", per calling source file,
+//!                              while the program ran (not while the engine was created).
 //! Environment: STEEL_JIT=false switches the JIT off (read by the engine itself).
+#![allow(unexpected_cfgs)]
 use std::io::{Read, Write};
 use std::panic::{catch_unwind, AssertUnwindSafe};
 use std::sync::atomic::{AtomicU64, Ordering};
@@ -46,9 +51,18 @@ fn main() {
         std::io::stdout().flush().ok();
         let prog = prog.to_string();
         let r = catch_unwind(AssertUnwindSafe(|| {
-            steel::steel_vm::engine::Engine::new().compile_and_run_raw_program(prog)
+            let mut engine = steel::steel_vm::engine::Engine::new();
+            #[cfg(c03_hook)]
+            let _ = steel::gc::verif::take_counts();
+            engine.compile_and_run_raw_program(prog)
         }));
         std::io::stdout().flush().ok();
+        #[cfg(c03_hook)]
+        {
+            let counts = steel::gc::verif::take_counts();
+            let txt: Vec<String> = counts.iter().map(|(k, a, b)| format!("{}={}/{}", k.replace(' ', ""), a, b)).collect();
+            println!("\n\u{1e}C {}", txt.join(" "));
+        }
         match r {
             Ok(Ok(_vals)) => {
                 println!("\n\u{1e}V");
